@@ -30,6 +30,8 @@ Suppressions:
 from dataclasses import dataclass, field
 from typing import Any
 
+from src.core.linter_utils import require_number
+
 # Default allowed numbers including common small integers and standard ports
 DEFAULT_ALLOWED_NUMBERS: set[int | float] = {
     # Common small integers
@@ -69,6 +71,7 @@ class MagicNumberConfig:
 
     def __post_init__(self) -> None:
         """Validate configuration values."""
+        require_number("max_small_integer", self.max_small_integer)
         if self.max_small_integer <= 0:
             raise ValueError(f"max_small_integer must be positive, got {self.max_small_integer}")
 
